@@ -19,6 +19,7 @@ comparison (blocking loop vs always-ticking loop on the real code) decides.
 import KVerif.Lemmas.LayeredTick
 import KVerif.Model.Kanata
 import KVerif.Lemmas.KanataQuiet
+import KVerif.Lemmas.KanataDynQuiet
 namespace KVerif.C07
 open KVerif.L KVerif.K
 
@@ -34,8 +35,8 @@ theorem idle_covers_time_driven (k : KState) (h : isIdle k = true) :
     k.layout.tapDanceEager = none ∧ k.layout.actionQueue = [] ∧ k.scroll = none ∧ k.hscroll = none ∧
     k.moveV = none ∧ k.moveH = none ∧ k.macroOnPressCancelDuration = 0 ∧ k.capsWord = none ∧
     k.vkeysPendingRelease = [] ∧ k.seq.st.active = false := by
-  simp only [isIdle, Bool.and_eq_true, List.isEmpty_iff, Option.isNone_iff_eq_none, beq_iff_eq] at h
-  obtain ⟨⟨⟨⟨⟨⟨⟨⟨⟨⟨⟨⟨⟨⟨⟨⟨⟨h1, h2⟩, h3⟩, h4⟩, h5⟩, h6⟩, h7⟩, h8⟩, h9⟩, h10⟩, h11⟩, h12⟩, h13⟩, h14⟩, h15⟩, h16⟩, _⟩, h17⟩ := h
+  simp only [isIdle, isIdleBase, Bool.and_eq_true, List.isEmpty_iff, Option.isNone_iff_eq_none, beq_iff_eq] at h
+  obtain ⟨⟨⟨⟨⟨⟨⟨⟨⟨⟨⟨⟨⟨⟨⟨⟨⟨⟨h1, h2⟩, h3⟩, h4⟩, h5⟩, h6⟩, h7⟩, h8⟩, h9⟩, h10⟩, h11⟩, h12⟩, h13⟩, h14⟩, h15⟩, h16⟩, _⟩, h17⟩, _⟩ := h
   exact ⟨h1, h2, h3, h4, h5, h6, h7, h8, h9, h10, h11, h12, h14, h13, h15, h16, by simpa using h17⟩
 
 /-- no state that the sequence machinery acts on by itself -/
@@ -223,6 +224,7 @@ structure MayBlock (k : KState) (cur' : List KeyCode) (ost : Override.OverrideSt
   wanted : k.overrides.overrideKeys (adjustKeys k k.layout.keycodes) k.overrideStates = .ok (cur', ost)
   noErase : ost.toRemove = []
   synced : Synced k cur'
+  noRec : k.dyn.rcd = none     -- [dyn] a recording's delay counter advances with every tick (can_block checks it since ccfb98e; is_idle does not)
 
 /-- the state one tick later -/
 def afterQuietTick (k : KState) (cur' : List KeyCode) (ost : Override.OverrideStates) : KState :=
@@ -251,14 +253,14 @@ theorem block_silent (k : KState) (cur' : List KeyCode) (ost : Override.Override
   have hidle' : isIdle (afterQuietTick k cur' ost) = true := by
     have hlpt : (tickPre k.layout).lptTapHoldTimeout = 0 := by rw [tickPre_lpt _ hq, i4]
     have hidle := h.idle
-    simp only [isIdle, Bool.and_eq_true, List.isEmpty_iff, Option.isNone_iff_eq_none, beq_iff_eq] at hidle ⊢
-    obtain ⟨⟨_, hs⟩, hsq⟩ := hidle
-    refine ⟨⟨⟨⟨⟨⟨⟨⟨⟨⟨⟨⟨⟨⟨⟨⟨⟨hq'.queue, hq'.waiting⟩, hq'.extra⟩, hlpt⟩, hq'.osh⟩, hq'.pause⟩, hq'.seqs⟩, hq'.tde⟩, hq'.aq⟩, i10⟩, i11⟩, i12⟩, ?_⟩, i13⟩, i15⟩, i16⟩, ?_⟩, hsq⟩
+    simp only [isIdle, isIdleBase, Bool.and_eq_true, List.isEmpty_iff, Option.isNone_iff_eq_none, beq_iff_eq] at hidle ⊢
+    obtain ⟨⟨⟨_, hs⟩, hsq⟩, hrep⟩ := hidle
+    refine ⟨⟨⟨⟨⟨⟨⟨⟨⟨⟨⟨⟨⟨⟨⟨⟨⟨⟨hq'.queue, hq'.waiting⟩, hq'.extra⟩, hlpt⟩, hq'.osh⟩, hq'.pause⟩, hq'.seqs⟩, hq'.tde⟩, hq'.aq⟩, i10⟩, i11⟩, i12⟩, ?_⟩, i13⟩, i15⟩, i16⟩, ?_⟩, hsq⟩, hrep⟩
     · show k.macroOnPressCancelDuration - 1 = 0
       rw [i14]
     · show (!((tickPre k.layout).states.any _)) = true
       rw [hst]; exact hs
-  refine ⟨?_, rfl, hst, hidle', h.noWait, hq'.plain, rfl, ?_, h.noErase, ⟨fun _ hx => hx, fun _ hx => hx⟩⟩
+  refine ⟨?_, rfl, hst, hidle', h.noWait, hq'.plain, rfl, ?_, h.noErase, ⟨fun _ hx => hx, fun _ hx => hx⟩, h.noRec⟩
   · unfold tickStates
     simp only [hk]
     change (match handleScrolling k1 with
@@ -268,6 +270,10 @@ theorem block_silent (k : KState) (cur' : List KeyCode) (ost : Override.Override
     rw [e3]; simp only []
     rw [e3s]; simp only []
     rw [e4]; simp only []
+    have e6 : dynTickRecord { k1 with macroOnPressCancelDuration := k1.macroOnPressCancelDuration - 1 }
+        = { k1 with macroOnPressCancelDuration := k1.macroOnPressCancelDuration - 1 } :=
+      dynTickRecord_none _ h.noRec
+    rw [e6]
     rw [← hk2]; exact e5
   · -- the wanted list is the same next time: same states, same unmod lists, and the override pass
     -- does not depend on the scratch state it is given
@@ -321,7 +327,7 @@ example : MayBlock
       mods := { codes := [42, 54, 56, 100, 29, 97, 125, 126], lsft := 42, rsft := 54 } }
     [30] Override.OverrideStates.new :=
   ⟨rfl, rfl, by intro st hst; simp at hst; subst hst; trivial, rfl, rfl, rfl,
-   ⟨fun _ h => h, fun _ h => h⟩⟩
+   ⟨fun _ h => h, fun _ h => h⟩, rfl⟩
 
 /-! What `block_silent` still assumes beyond `can_block_update_idle_waiting`: `PlainStates` (kanata's
 `is_idle` checks the sequence-custom states but not a held `macro-repeat`), `Synced` (not checked at
@@ -370,9 +376,10 @@ theorem extra_waiting_keeps_counting :
 /-- the idle predicate of the tree implies the pinned one (it only got stricter) -/
 theorem idle_implies_pinned_idle (k : KState) (h : isIdle k = true) : isIdlePinned k = true := by
   obtain ⟨i1, i2, _, i4, i5, _, i7, i8, i9, i10, i11, i12, i13, i14, i15, i16, i17⟩ := idle_covers_time_driven k h
-  simp only [isIdle, Bool.and_eq_true] at h
-  have hst := h.1.2
-  simp only [isIdlePinned, i1, i2, i4, i5, i7, i8, i9, i10, i11, i12, i13, i14, i15, i16, i17, hst]
+  simp only [isIdle, isIdleBase, Bool.and_eq_true] at h
+  have hst := h.1.1.2
+  have hrep := h.2
+  simp only [isIdlePinned, hrep, i1, i2, i4, i5, i7, i8, i9, i10, i11, i12, i13, i14, i15, i16, i17, hst]
   simp
 
 end KVerif.C07
